@@ -21,27 +21,27 @@ check('C20', 'effect analysis over the resolved call graph of the instantiated p
 
 check('C05', 'call-graph reachability (no allocation request reachable from any FixedCapacityVector member) + guard/encoding shape rules for SmallVector',
       'FixedCapacityVector clause decided in full (NOALLOC on the complete call graph of every instantiation). SmallVector/SmallSet: structural clauses only, see evidence.',
-      'Also: ENC-SIB / SHRINK-INLINE (the three encoders agree; shrink_to_fit returns to the inline storage exactly when size <= N, element types with throwing moves included). Does not decide capacity()==N as a run-time relation; see DESIGN.md C05.',
+      'Also: ENC-SIB / SHRINK-INLINE (the three encoders agree; shrink_to_fit returns to the inline storage exactly when size <= N, element types with throwing moves included), NEED-SIZE (capacity requests are derived from element counts, never from the capacity of another container). Does not decide capacity()==N as a run-time relation; see DESIGN.md C05.',
       'DESIGN.md section 4, C05')
 
 check('C07', 'call-graph exclusion (capacity-changing callees reachable only through grow) + control-dependence of every grow call on a capacity comparison + abstract interpretation of the growth function',
       'Decides in full, for the analysed matrix, the clauses "capacity never decreases except through shrink_to_fit/move/swap", "an operation whose result fits does not reallocate" and "after reserve(n) capacity()>=n"; structural only for size()<=capacity().',
-      'Partial: run-time inequalities and preserved element addresses over histories are not decided; see DESIGN.md C07.',
+      'Also: NEED-SIZE, MAX-SIZE (max_size() is the maximum of size_type for the dynamic vectors - signed archetypes included - and the capacity for the fixed ones). Partial: run-time inequalities and preserved element addresses over histories are not decided; see DESIGN.md C07.',
       'DESIGN.md section 4, C07')
 
 check('C08', 'rule instances over the instantiated program: throw-type/condition table, computation-type (integral promotion) check of every capacity request, growth-function interpretation',
       'Decides the error-type clauses and "no size computation wraps around" per size_type archetype; check-before-mutation and leak clauses come from the typestate rules listed in the evidence.',
-      'Also: CHECK-FIRST (path-sensitive: the limit test precedes the first modification), EXACT-WHO (no uintmax_t request reaches the exact path of SafeNextCapacity, which has no overflow test), strictness of the swap_sizetype range test. Partial: "contents exactly as before" is decided in its structural form.',
+      'Also: CHECK-FIRST (path-sensitive: the limit test precedes the first modification), EXACT-WHO (no uintmax_t request reaches the exact path of SafeNextCapacity, which has no overflow test), strictness of the swap_sizetype range test, RANGE-MEASURE (a multi-pass range is measured and tested against the limit once, before anything is modified). Partial: "contents exactly as before" is decided in its structural form.',
       'DESIGN.md section 4, C08')
 
 check('C18', 'abstract interpretation (affine lower bounds with clamp) of the growth function + loop/once-per-path rule for capacity adjustments',
       'The reallocation bound follows for every n from two static facts: growth factor a with a*a>=2 (derived: 3/2) and at most one grow with one allocator request per appended element; decided for every size_type archetype.',
-      'Also: EXACT-WHO (no element-adding operation reaches an exact request), GROW-BASIS (SafeNextCapacity is given the current capacity, never the word holding the size), SHRINK-INLINE. Trusted: constant folding of numeric_limits; arithmetic from the factor to 2*ceil(log2 n)+4 is in the evidence explanation.',
+      'Also: EXACT-WHO (no element-adding operation reaches an exact request), GROW-BASIS (SafeNextCapacity is given the current capacity, never the word holding the size), SHRINK-INLINE, SHRINK-ALL (shrink_to_fit of amc::vector reduces the capacity whenever it differs from size(), with no further condition). Trusted: constant folding of numeric_limits; arithmetic from the factor to 2*ceil(log2 n)+4 is in the evidence explanation.',
       'DESIGN.md section 4, C18')
 
 check('C09', 'typestate analysis on the structured bodies of the instantiated program (slot holes, pending temporaries, uncommitted raw constructs, size commits) with may-throw points taken from the resolved call graph and evaluated exception specifications',
       'Decides the static form of both guarantees for every may-throw point of every vector operation and memory algorithm: an opened slot range is closed by a handler, a constructed-but-invisible object is destroyed, nothing observable changes before the last may-throw call of a strong operation, no noexcept function reaches a throw. Covers all throw indices k at once because it quantifies over program points, not runs.',
-      'Also: DEAD-TAIL (no may-throw call between destroying counted elements and the size commit), BLOCK (a fresh block held by a local is owned or given back on every exit, scope guards understood), RETHROW (no handler swallows), CLOSER (the roll-back helpers are symbolically the inverse of shift_right), CURSOR (roll-back cursors advance after the construct). Partial: values after a failed operation, std::sort/inplace_merge internals and throwing destructors are not decided. The defects these rules found in the pinned tree (F8-F10, F18, F20, F21) are repaired; known_findings.txt holds no open finding.',
+      'Also: DEAD-TAIL (no may-throw call between destroying counted elements and the size commit), BLOCK (a fresh block held by a local is owned or given back on every exit, scope guards understood), RETHROW (no handler swallows), CLOSER (the roll-back helpers are symbolically the inverse of shift_right), CURSOR (roll-back cursors advance after the construct), RANGE-MEASURE. Partial: values after a failed operation, std::sort/inplace_merge internals and throwing destructors are not decided. The defects these rules found in the pinned tree (F8-F10, F18, F20, F21) are repaired; known_findings.txt holds no open finding.',
       'DESIGN.md section 4, C09')
 
 check('C10', 'effect-ordering (typestate) analysis: no read of an element-reference argument after an element-moving effect, with the re-basing overloads checked by the same engine',
@@ -51,12 +51,12 @@ check('C10', 'effect-ordering (typestate) analysis: no read of an element-refere
 
 check('C01', 'typestate / dataflow rules over the instantiated program (size-word write discipline, capacity-check dominance, single-pass iterator use, self-assignment distance) + record-layout facts',
       'Decides six structural clauses that are each necessary for C01 (inline encoding discipline, inline span, single traversal of input ranges, no element operation for an empty erase, capacity check before every construct incl. base bookkeeping, size commit follows lifetime op); the behavioural equality with std::vector over histories is NOT decided.',
-      'Also decided: RET-POS (abstract interpretation - storage versions x linear offsets - of every position-returning member: the returned iterator is the index of the position argument in the current storage), VALUE-INIT (who-may-call: no default-initialisation in the vector classes), BYTECMP, ALIAS, result types (SIG witnesses). Partial: necessary conditions only; element sequences over histories are not decided.',
+      'Also decided: RET-POS (abstract interpretation - storage versions x linear offsets - of every position-returning member: the returned iterator is the index of the position argument in the current storage), VALUE-INIT (who-may-call: no default-initialisation in the vector classes), BYTECMP, ALIAS, result types (SIG witnesses), SIGN-DIFF (no difference of two unsigned sizes is computed in the narrow unsigned type and then widened to a signed one). Partial: necessary conditions only; element sequences over histories are not decided.',
       'DESIGN.md section 4, C01')
 
 check('C02', 'who-may-call analysis of byte copies over the resolved call graph (incl. libstdc++ bodies) per element archetype + overload-pair effect signatures + typestate (normal paths)',
       'Second sentence of C02 decided in full for the matrix: no memcpy/memmove/realloc touches an E* for non-relocatable E anywhere in the call graph, reallocate only for relocatable E, overload pairs consistent. First sentence: necessary structural clauses (hole re-filled once, size commits matched, no self-assignment, temporaries released, destructor layer present).',
-      'Also: SELF-MOVE (no element assigned from a possibly identical element designator of the same container), LIVE-COUNT (the "already constructed" count given to move_n / assign_n / fill is the size at the call). Partial: exactly-once as a count over histories is not decided.',
+      'Also: SELF-MOVE (no element assigned from a possibly identical element designator of the same container), LIVE-COUNT (the "already constructed" count given to move_n / assign_n / fill is the size at the call), SHIFT-KEEP (for element types that are not trivially relocatable shift_right neither destroys nor relocates the vacated slots: its consumers assign onto them). Partial: exactly-once as a count over histories is not decided.',
       'DESIGN.md section 4, C02')
 
 check('C06', 'argument-provenance and typestate rules on allocator call sites (who passes which word), release-on-all-heap-paths analysis, hand-over effect analysis',
@@ -66,27 +66,27 @@ check('C06', 'argument-provenance and typestate rules on allocator call sites (w
 
 check('C13', 'typestate rules over every swap2 instantiation (ordered flavour pairs): throw-before-mutation ordering, size-word write discipline, noexcept soundness on the call graph, capacity-check dominance',
       'Decides, for all ordered pairs of the flavour matrix, that a failing exchange throws before either operand is modified (and really throws rather than terminating), that sizes are exchanged through the encoding discipline, that the deep swap is capacity-checked and the buffer exchange touches no element.',
-      'Also: EACH-OTHER, STALE-READ, XALLOC, ENC-SIB, strict swap_sizetype range test (THROW-TYPE). Partial: exact exchange of the element sequences is a value statement and is not decided.',
+      'Also: EACH-OTHER, STALE-READ, XALLOC, ENC-SIB, strict swap_sizetype range test (THROW-TYPE), SWAP-WHO (swap_impl, which assumes equal inline capacity N, is only called with operands whose static type carries N). Partial: exact exchange of the element sequences is a value statement and is not decided.',
       'DESIGN.md section 4, C13')
 
 check('C03', 'who-may-construct rule on comparator-typed expressions, post-dominance of sort/merge/unique after bulk writes, control dependence of the node reset, comparator-call counting, type-level const-view witnesses',
       'Decides structural clauses necessary for C03: stored comparator used for every decision, every bulk writer re-establishes sorted+unique with a stable sort, insert(node) empties the node only on insertion, no mutable access to the sorted storage, every lookup is one binary search.',
-      'Also: CMP-INIT (constructors / swap carry the comparator), NODE-MOVE / NODE-POS (a refused node keeps its value and reports the blocking element), MERGE-ORDER. Partial: equality with std::set over histories is not decided; the hint decision tree is C12.',
+      'Also: CMP-INIT (constructors / swap carry the comparator), NODE-MOVE / NODE-POS (a refused node keeps its value and reports the blocking element), MERGE-ORDER, EQ-ELEM (operator== / != compare the element sequences with the element equality, not with the comparator). Partial: equality with std::set over histories is not decided; the hint decision tree is C12.',
       'DESIGN.md section 4, C03')
 
 check('C04', 'typestate analysis over SmallSet members with facts from isSmall()/isSmallContFull()/grow() per operand; membership-test dominance; comparator provenance',
       'Decides the state anchor of C04: exactly one of the two containers is written in each state on every path (incl. merge across template parameters), no add to the inline vector without a membership test, stored comparator everywhere, both backings analysed against the same rules.',
-      'Also: SS-PAIR (replacing one container as a whole replaces or empties the other), LEX-SIB, SS-GROW, ITER-STATE, one-sided unguarded access (ALT-SIB). Partial: observable equality with std::set over histories is not decided.',
+      'Also: SS-PAIR (replacing one container as a whole replaces or empties the other), LEX-SIB, SS-GROW, ITER-STATE, one-sided unguarded access (ALT-SIB), EQ-ELEM. Partial: observable equality with std::set over histories is not decided.',
       'DESIGN.md section 4, C04')
 
 check('C11', 'typestate on the knowledge "large": results of removing calls are used only after re-testing the active container; sibling agreement of the alternative-selecting members; alternative access only in the matching state',
       'Decides that every iterator handed to the caller is built from the container active at the return (erase returns end() of the active container when the last element goes) and that begin/end/rbegin/rend/find agree on the alternative in both states.',
-      'Also: ITER-STATE, NODE-POS, ARROW-STAR (operator-> is the address of operator*, forward and reverse). Partial: "visits every element exactly once" is inherited from the underlying containers (trusted).',
+      'Also: ITER-STATE, NODE-POS, ARROW-STAR (operator-> is the address of operator*, forward and reverse), ERASE-RET (in the inline state SmallSet::erase returns what the erase of the inline vector returned, not the stale last). Partial: "visits every element exactly once" is inherited from the underlying containers (trusted).',
       'DESIGN.md section 4, C11')
 
 check('C19', 'comparator-call counting on the structured paths of the instantiated lookup members (max over paths, interprocedural through amc callees), loop / linear-algorithm exclusion',
       'Decides the stated bounds for every n: one binary search + <=2 direct comparisons per FlatSet lookup (2*ceil(log2(n+1))+4 with the standard\'s bound), <=4 comparisons on the search-free paths of insert_hint, <=2N+2 for the inline state of SmallSet.',
-      'That each correct hint takes a search-free, loop-free path is decided by the ordering interpretation of C12 (HINT-FREE), incl. the node overload handing its hint on. Trusted: ISO complexity clauses of lower_bound/upper_bound.',
+      'That each correct hint takes a search-free, loop-free path is decided by the ordering interpretation of C12 (HINT-FREE), incl. the node overload handing its hint on; ONE-SCAN (each public SmallSet operation scans the inline vector at most once on any path). Trusted: ISO complexity clauses of lower_bound/upper_bound.',
       'DESIGN.md section 4, C19')
 
 check('C14', 'provenance analysis of every value stored into a pointer field / heap-pointer slot of the container classes (never derived from this) + record-layout facts + compile-time trait matrix',
@@ -96,12 +96,12 @@ check('C14', 'provenance analysis of every value stored into a pointer field / h
 
 check('C15', 'per-language-standard analysis of the instantiated memory algorithms: all-paths-return (path engine), typestate clean-up rule on the construct loops, construct-before-destroy ordering, byte-copy who-may-call, compile-time signature witnesses, cross-standard effect-signature comparison',
       'Decides for c++11/14/17/20 (different implementations selected) that every algorithm returns on all paths with the standard result type, destroys its partial output on throw, relocates as construct-then-destroy with the sources alive until all constructs succeeded, and byte-copies only when the trait allows.',
-      'Also: ADVANCE, EMUL-EFFECT (incl. value- vs default-initialisation from the initialisation style of the new-expressions), CURSOR, SAMETYPE (byte copies only between equal value types; cross-type copies instantiated). Partial: value equality of the constructed objects is not decided.',
+      'Also: ADVANCE, EMUL-EFFECT (incl. value- vs default-initialisation from the initialisation style of the new-expressions), CURSOR, SAMETYPE (byte copies only between equal value types; cross-type copies instantiated), DIRECT-INIT / CTOR-FWD (construct_at direct-initialises with perfectly forwarded arguments in every standard). Partial: value equality of the constructed objects is not decided.',
       'DESIGN.md section 4, C15')
 
 check('C16', 'cross-configuration comparison of the instantiated program (structural hashes of every function body, API tables, effect signatures) over the lattice {c++11..20} x {extras on/off} x {NDEBUG on/off} + assert-purity + detection-idiom and constant witnesses',
       'Decides the static slice of C16: AMC_NONSTD_FEATURES and NDEBUG leave every function body unchanged (assert expansions aside, which are side-effect free), pedantic mode only hides the documented extras, SmallSet is absent before C++17, member sets agree across standards except the documented ones, #if alternatives have equal effect signatures and equal compile-time constants, no function falls off its end.',
-      'ASSERT-PURE follows the callees of assert arguments (a single-pass range consumed by std::distance), effect signatures ignore branches the instantiated program cannot take and are compared per instantiation, the swappable-trait emulation is checked against unqualified-lookup + ADL witnesses. Partial: transcript equality of whole programs and undiagnosed undefined behaviour are not decided.',
+      'ASSERT-PURE follows the callees of assert arguments (a single-pass range consumed by std::distance), effect signatures ignore branches the instantiated program cannot take and are compared per instantiation, the swappable-trait emulation is checked against unqualified-lookup + ADL witnesses, DIRECT-INIT compares the pre-C++20 construct_at emulation with std::construct_at. Partial: transcript equality of whole programs and undiagnosed undefined behaviour are not decided.',
       'DESIGN.md section 4, C16')
 
 check('C12', 'abstract interpretation of every hinted entry point of FlatSet (recognised by shape: insert(hint, v), emplace_hint, the hinted helper) over the finite domain of orderings (value vs. up to three neighbours on each side of the hint, boundary flags), std::lower_bound given its specified result; in-place insertion + neighbour tests + erase modelled; delegation is an action of its own',
@@ -134,7 +134,7 @@ def main():
         ],
         'checks': [],
         'not_applicable': [{'property_id': p, 'reason': r} for p, r in sorted(NA.items()) if p not in CHECKS],
-        'notes': 'Technique family: static analysis only. Exit codes: 0 pass, 1 VIOLATION, 2 ANALYSIS-BROKEN (vanished anchor / below floor / driver no longer compiles).',
+        'notes': 'Technique family: static analysis only. Exit codes: 0 pass, 1 VIOLATION, 2 ANALYSIS-BROKEN (vanished or renamed anchor - sa/rules/anchors.py names the functions, fields and types the rules are filled from - / instance count below floor / driver no longer compiles).',
     }
     for pid in sorted(CHECKS):
         c = CHECKS[pid]
